@@ -37,6 +37,10 @@ func c12Jobs(tier string) []string {
 			"W0+root-list-of-lists", "W0+service-without-node")
 	}
 	var jobs []string
+	// Wfan: child steps of one level alternate between two other services (tiny schema, deeper K)
+	for s := 0; s < 4; s++ {
+		jobs = append(jobs, fmt.Sprintf("Wfan|e0p|queryK%d#%d/4", k+1, s))
+	}
 	for _, w := range worlds {
 		for s := 0; s < 4; s++ {
 			jobs = append(jobs, fmt.Sprintf("%s|e0p|queryK%d#%d/4", w, k, s))
